@@ -23,6 +23,13 @@ namespace adept {
 
   using namespace internal;
 
+#ifdef RJHOGAN_ADEPT_2_VERIF
+  // Verification hook: number of Jacobian blocks processed by each
+  // OpenMP thread id, so that a harness can show that more than one
+  // thread took part in a parallel Jacobian computation
+  int verif_omp_blocks_[256] = {0};
+#endif
+
   template <typename T>
   T _check_long_double() {
     // The user may have requested Real to be of type "long double" by
@@ -145,6 +152,9 @@ namespace adept {
       
 #pragma omp for schedule(static)
       for (int iblock = 0; iblock < n_block; iblock++) {
+#if defined(RJHOGAN_ADEPT_2_VERIF) && defined(_OPENMP)
+	verif_omp_blocks_[omp_get_thread_num() & 255]++;
+#endif
 	// Set the index to the dependent variables for this block
 	uIndex i_independent =  MULTIPASS_SIZE * iblock;
 	
@@ -355,6 +365,9 @@ namespace adept {
       
 #pragma omp for schedule(static)
       for (int iblock = 0; iblock < n_block; iblock++) {
+#if defined(RJHOGAN_ADEPT_2_VERIF) && defined(_OPENMP)
+	verif_omp_blocks_[omp_get_thread_num() & 255]++;
+#endif
 	// Set the index to the dependent variables for this block
 	uIndex i_dependent =  MULTIPASS_SIZE * iblock;
 	
